@@ -45,13 +45,14 @@ PROPS['C07'] = {
              'Distinct = distinct (per-thread request flavour/release/lock-path sequence, number of hand-overs, rebuilt queue nodes).'),
     'min_nontrivial': [50, 500],
     'require_classes': ['mutex_mt:lock_path_waited', 'mutex_mt:lock_path_found_free_after_push', 'mutex_mt:unlock_handover'],
-    'single_thread_scenarios': ('mutex_fifo_history', 'ownership_object_history', 'mutex_callback_parties'),
+    'single_thread_scenarios': ('mutex_fifo_history', 'ownership_object_history', 'mutex_callback_parties', 'bare_coroutine_programs'),
     'jobs': [
         J('mt_rel', 'c07.cpp', 'rel', [150000, 10000000], scenario='mutex_mt'),
         J('mt_asan', 'c07.cpp', 'asan', [25000, 1000000], scenario='mutex_mt'),
         J('hist_asan', 'c07.cpp', 'asan', [20000, 1000000], scenario='mutex_fifo_history', threads=1),
         J('own_asan', 'c07.cpp', 'asan', [20000, 1000000], scenario='ownership_object_history', threads=1),
         J('cbp_asan', 'c07.cpp', 'asan', [30000, 1000000], scenario='mutex_callback_parties', threads=1),
+        J('bare_asan', 'c07.cpp', 'asan', [30000, 1000000], scenario='bare_coroutine_programs', threads=1),
         J('own_rel', 'c07.cpp', 'rel', [40000, 2000000], scenario='ownership_object_history', threads=1),
         J('mt_crel', 'c07.cpp', 'crel', [0, 4000000], scenario='mutex_mt', tiers=(T,)),
         J('mt_casan', 'c07.cpp', 'casan', [0, 500000], scenario='mutex_mt', tiers=(T,)),
